@@ -69,7 +69,7 @@ func MaybeWorker() {
 
 // request is one line parent -> worker.
 type request struct {
-	Kind string `json:"kind"` // "fam" | "small" | "calib"
+	Kind string `json:"kind"` // "fam" | "small" | "per" | "calib"
 	// fam
 	Fam   int `json:"fam,omitempty"`
 	Param int `json:"param,omitempty"`
@@ -79,6 +79,8 @@ type request struct {
 	Len   int   `json:"len,omitempty"`
 	Lo    int64 `json:"lo,omitempty"`
 	Hi    int64 `json:"hi,omitempty"`
+	// per (Scope, Len = period length, Lo, Hi as above)
+	Sizes []int `json:"sizes,omitempty"`
 }
 
 // meas is one measured input.
@@ -103,6 +105,8 @@ type meas struct {
 type smallViol struct {
 	Clause string `json:"clause"`
 	Index  int64  `json:"index"`
+	Tail   int    `json:"tail,omitempty"` // periodic scopes
+	Size   int    `json:"size,omitempty"`
 	M      meas   `json:"m"`
 }
 
@@ -121,6 +125,12 @@ type response struct {
 	MaxFrac    [3]float64  `json:"max_frac,omitempty"` // measured / bound per clause
 	Viol       []smallViol `json:"viol,omitempty"`
 	Calib      [3]uint64   `json:"calib,omitempty"`
+	// periodic batch
+	Stopped int64      `json:"stopped,omitempty"`
+	ViolN   int64      `json:"viol_n,omitempty"`
+	Worst   *meas      `json:"worst,omitempty"` // measurement with the largest fraction of a bound
+	WorstAt [3]int64   `json:"worst_at,omitempty"`
+	PerN    [3]float64 `json:"per_n,omitempty"` // max deepSize/n, allocDec/n, allocDecEnc/n
 }
 
 func workerLoop() (code int) {
@@ -138,6 +148,7 @@ func workerLoop() (code int) {
 	}()
 	fams := families()
 	scopes := smallScopes()
+	pers := perScopes()
 	in := bufio.NewScanner(os.Stdin)
 	in.Buffer(make([]byte, 1<<20), 1<<20)
 	for in.Scan() {
@@ -194,7 +205,7 @@ func workerLoop() (code int) {
 						}
 					}
 					if !seen {
-						r.Viol = append(r.Viol, smallViol{cl, i, m})
+						r.Viol = append(r.Viol, smallViol{Clause: cl, Index: i, M: m})
 					}
 				}
 				if i&0x3ff == 0 {
@@ -202,6 +213,72 @@ func workerLoop() (code int) {
 				}
 			}
 			collectIfLarge()
+			reply(r)
+		case "per":
+			s := &pers[rq.Scope]
+			r := &response{}
+			var worstFr float64
+			for i := rq.Lo; i < rq.Hi; i++ {
+				p := s.perString(rq.Len, i)
+				for ti, tail := range perTails {
+					for _, n := range rq.Sizes {
+						b := s.perInput(p, tail, n)
+						m := measureD(s.Entry, b, false)
+						r.Count++
+						if m.Accepted {
+							r.Accepted++
+							if m.N >= nontrivialMin {
+								r.Nontrivial++
+							}
+						}
+						if m.DepthMism {
+							r.DepthMism++
+						}
+						fr := fractions(&m)
+						for k := range fr {
+							if fr[k] > r.MaxFrac[k] {
+								r.MaxFrac[k] = fr[k]
+							}
+							if fr[k] > worstFr {
+								worstFr = fr[k]
+								mm := m
+								r.Worst, r.WorstAt = &mm, [3]int64{i, int64(ti), int64(n)}
+							}
+						}
+						if m.N > 0 {
+							for k, v := range []uint64{m.Deep, m.AllocDec, m.AllocDecEnc} {
+								if x := float64(v) / float64(m.N); x > r.PerN[k] {
+									r.PerN[k] = x
+								}
+							}
+						}
+						cls := violatedClauses(&m)
+						if m.Panic != "" {
+							cls = append(cls, "panic")
+						}
+						for _, cl := range cls {
+							r.ViolN++
+							seen := false
+							for _, v := range r.Viol {
+								if v.Clause == cl {
+									seen = true
+								}
+							}
+							if !seen {
+								r.Viol = append(r.Viol, smallViol{Clause: cl, Index: i, Tail: ti, Size: n, M: m})
+							}
+						}
+						if m.N >= 4096 {
+							collectIfLarge()
+						}
+						if len(cls) > 0 {
+							r.Stopped++
+							break // this (period, tail) instance stops at its first violating size
+						}
+					}
+				}
+				collectIfLarge()
+			}
 			reply(r)
 		default:
 			reply(&response{Fatal: "unknown request kind " + rq.Kind})
@@ -321,9 +398,18 @@ func encodeFrom(d *decoded, e entryKind) {
 // decode and re-encode between TotalAlloc readings (runtime.ReadMemStats stops
 // the world and flushes the allocation caches, so the counter is exact), then
 // the reflective deep size.
-func measure(e entryKind, in []byte) (m meas) {
+func measure(e entryKind, in []byte) (m meas) { return measureD(e, in, true) }
+
+// measureD: with useRef=false the depth comes from the structural scan alone
+// (periodic scopes: the reference decoder's own cost on pointer loops, up to n
+// hops per pointer with a growing name, would otherwise dominate the worker).
+func measureD(e entryKind, in []byte, useRef bool) (m meas) {
 	m.N = len(in)
-	m.Depth, m.RefDepth, m.DepthMism = depthOf(e, in)
+	if useRef {
+		m.Depth, m.RefDepth, m.DepthMism = depthOf(e, in)
+	} else {
+		m.Depth, m.RefDepth = structDepthOf(e, in), -1
+	}
 	b := append(make([]byte, 0, len(in)), in...) // fresh buffer handed to the library
 	var d decoded
 	runtime.ReadMemStats(&msA)
